@@ -44,6 +44,12 @@ XTA_GOOD = [
     "/* header\n comment */\nbroadcast chan b; int n = 3;\nprocess R() { state L { n > 0 }; init L; trans L -> L { sync b!; assign n = n - 1; }; }\nR1 = R();\nsystem R1;",
 ]
 XTA_OLD = ["int x; clock c;\nprocess P { state S0 { c <= 5 }, S1; init S0; trans S0 -> S1 { guard c >= 1; assign x := 1; }; }\nsystem P;"]
+XTA_ERRNO = [   # accepted or rejected, these make strtod / strtol / atof set errno = ERANGE: the next call must not see it
+    "const double EPS = 1e-400; int n = 7;\nprocess P() { state S0; init S0; }\nsystem P;",
+    "double big = 1e400; int n = 12345;\nprocess P() { state S0; init S0; }\nsystem P;",
+    "int huge = 99999999999999999999; int n = 3;\nprocess P() { state S0; init S0; }\nsystem P;",
+    "int m = 2147483648;\nprocess P() { state S0; init S0; }\nsystem P;",
+]
 XTA_BAD = [
     "int x; clock c;\nprocess P() { state S0, S1; init S0; trans S0 -> S1 { guard c >= zz; }; }\nsystem P;",
     "int x = ;\nprocess P() { state S0; init S0; }\nsystem P;",
@@ -105,6 +111,8 @@ def call_pool():
         pool.append({"tag": tag, "kind": "XML", "a": 1, "b": 0, "input": x})
     for t in XTA_GOOD:
         pool.append({"tag": "xta-good", "kind": "XTA", "a": 1, "b": 0, "input": t})
+    for t in XTA_ERRNO:
+        pool.append({"tag": "xta-errno", "kind": "XTA", "a": 1, "b": 0, "input": t})
     for t in XTA_OLD:
         pool.append({"tag": "xta-old", "kind": "XTA", "a": 0, "b": 0, "input": t})
     for t in XTA_BAD:
@@ -150,6 +158,10 @@ def gen_state_sequences(ctx):
     r = ctx.rng
     seqs = []
     probe = {"tag": "probe", "kind": "XTA", "a": 1, "b": 0, "input": PROBE}
+    for t in XTA_ERRNO:
+        for kind in ("XTA", "BLK"):
+            seqs.append({"class": "errno", "items": [{"tag": "xta-errno", "kind": kind, "a": 1, "b": 0, "input": t}, probe,
+                                                     {"tag": "query", "kind": "QRY", "a": 0, "b": 0, "input": "A[] v <= 1"}]})
     for t in ABORT_TEXTS:
         cuts = list(range(1, len(t) + 1))
         if not ctx.thorough:
